@@ -202,6 +202,8 @@ pub fn fragments(depth2: bool) -> Vec<String> {
         "(x)", "&x", "x as u8", "m!(x)", "if a { 1 } else { 2 }", "a = b", "a && b || c", "x?", "a::b(c)",
         // literals
         "\"hello\"", "\"a + b\"", "\"a::b\"", "\"\"", "\"\\\"deep\\\"\"", "r\"raw\"", "true", "5", "0x10", "5u8", "1_000", "-3", "-0x10", "-5i8", "-1_000", "1.5", "-2.5f32", "'c'", "b'c'", "b\"x\"",
+        // numeric arrays at and beyond each element width
+        "[1, 2, 256]", "[255, 0]", "[65535]", "[65536]", "[4294967295]", "[4294967296]", "[18446744073709551615]", "[18446744073709551616]", "[0, 1, 2, 3, 4, 5, 6, 7, 8, 9, 10, 11, 12, 13, 14, 15, 16, 17]",
         // types
         "u8", "Vec<u8>", "&'a str", "&mut T", "[u8; 4]", "fn(u8) -> u8", "(u8, u8)", "()", "!", "_", "*const u8", "[u8]", "dyn Tr + 'a", "impl Tr", "(u8)", "T: Clone", "T",
         // visibility / where
@@ -270,7 +272,9 @@ pub fn check(tg: &Target, frag: &str, t: &mut Tally) {
             bare_results.push(("bare inside a list", (tg.conv)(&m)));
         }
         if let Ok(e) = syn::parse_str::<syn::Expr>(frag) {
-            bare_results.push(("inside an invisible group", (tg.conv)(&group_meta(e))));
+            bare_results.push(("inside an invisible group", (tg.conv)(&group_meta(e.clone()))));
+            let inner = syn::Expr::Group(syn::ExprGroup { attrs: vec![], group_token: Default::default(), expr: Box::new(e) });
+            bare_results.push(("inside two invisible groups", (tg.conv)(&group_meta(inner))));
         }
     }
     // targets whose bare grammar is a syntactic class of expressions accept every member of it
@@ -334,7 +338,9 @@ pub fn check(tg: &Target, frag: &str, t: &mut Tally) {
             quoted.push(("quoted inside a list", (tg.conv)(&m)));
         }
         if let Ok(e) = syn::parse_str::<syn::Expr>(&rust_str(frag)) {
-            quoted.push(("quoted inside an invisible group", (tg.conv)(&group_meta(e))));
+            quoted.push(("quoted inside an invisible group", (tg.conv)(&group_meta(e.clone()))));
+            let inner = syn::Expr::Group(syn::ExprGroup { attrs: vec![], group_token: Default::default(), expr: Box::new(e) });
+            quoted.push(("quoted inside two invisible groups", (tg.conv)(&group_meta(inner))));
         }
         for (how, r) in &quoted {
             t.evaluations += 1;
